@@ -372,6 +372,10 @@ func Finish(r Report, p *Partial) int {
 	if p.Evals == 0 {
 		broken = "no case was evaluated"
 	}
+	if inc := p.Counters["inconclusive"]; inc > 20 && inc*5 > p.Evals {
+		// a check most of whose cases could not be judged did not check anything
+		broken = fmt.Sprintf("%d of %d cases were inconclusive", inc, p.Evals)
+	}
 
 	cov := map[string]any{
 		"evaluations":         p.Evals,
